@@ -335,15 +335,15 @@ theorem version_ops_consistent (x y : GoVersion) :
 /-- After the repair (`typeofNode` looks through expression statements) every list-aware delegating predicate
 is "the relation holds for the captured expression's type, for every element of a list capture" —
 whichever accessor it reads. -/
-theorem rel_eq_spec (r : Rel) (o : Oracle) (hr : r ≠ .hasMethod ∧ r ≠ .identicalTo) :
+theorem rel_eq_spec (r : Rel) (o : Oracle) (hr : r ≠ .identicalTo) :
     relFilter true r o = SpecC02.relSpec r o := by
   cases r <;> simp_all [relFilter, SpecC02.relSpec, SpecC02.aboutNode, SpecC02.relHolds, allElems, Oracle.onNode] <;> rfl
 
 /-- The code as it stood (`stmt = false`): the predicates that read `subNode` agree only when the capture is
-an expression (the two accessors coincide).  Before and after: `HasMethod` / `IdenticalTo` ignore
-expression lists. -/
+an expression (the two accessors coincide).  Before and after: `IdenticalTo` ignores
+expression lists (`HasMethod` did until 4160912). -/
 theorem rel_eq_spec_partial (stmt : Bool) (r : Rel) (o : Oracle) (h : stmt = false → o.onSubNode = o.onSubExpr)
-    (hl : (r = .hasMethod ∨ r = .identicalTo) → o.onElems = none) :
+    (hl : r = .identicalTo → o.onElems = none) :
     relFilter stmt r o = SpecC02.relSpec r o := by
   cases stmt <;> cases r <;> simp_all [relFilter, SpecC02.relSpec, SpecC02.aboutNode, SpecC02.relHolds, allElems, Oracle.onNode] <;> rfl
 
@@ -457,11 +457,11 @@ theorem isVariadic_cap_eq_spec (cf : CurFunc) (c : ExCap) (h : ScopeOKCap cf c) 
 /-- **After the repairs, every modelled predicate the loader accepts gives, at every site (single capture or
 `$*xs` list, expression or statement), exactly the verdict the property prescribes, and never panics.**
 Hypotheses left: the go/types scoping contract for `IsVariadicParam` (`ScopeOKCap`), and that
-`HasMethod` / `IdenticalTo` (which have no list case) are not asked about an expression list. -/
+`IdenticalTo` (which has no list case) is not asked about an expression list. -/
 theorem pred_eq_spec (p : Pred) (f : Site → Option (Res Bool)) (s : Site)
     (h : evalPred .repaired p = some f)
     (hv : p = .isVariadic → ScopeOKCap s.cf s.ex)
-    (hr : ∀ r o, p = .rel r → (r = .hasMethod ∨ r = .identicalTo) → s.oracle = some o → o.onElems = none) :
+    (hr : ∀ r o, p = .rel r → r = .identicalTo → s.oracle = some o → o.onElems = none) :
     f s = (SpecC02.specPred p s).map .ok := by
   cases p with
   | ofKind u kind =>
@@ -509,9 +509,9 @@ theorem pred_eq_spec (p : Pred) (f : Site → Option (Res Bool)) (s : Site)
     | none => rfl
     | some o =>
       simp only [Option.map_some]
-      by_cases hm : r = .hasMethod ∨ r = .identicalTo
+      by_cases hm : r = .identicalTo
       · rw [rel_eq_spec_partial true r o (by simp) (fun _ => hr r o rfl hm ho)]
-      · rw [rel_eq_spec r o ⟨fun e => hm (Or.inl e), fun e => hm (Or.inr e)⟩]
+      · rw [rel_eq_spec r o hm]
 
 /-! ## non-vacuity and kernel-checked counterexamples -/
 
